@@ -16,6 +16,8 @@ from . import nameres
 def run(ctx) -> None:
     ctx.rule("a.left-complete", "no continue/break/return in the probe loop; `if bucket:` matched block (once per bucket "
                                 "element) else unconditional padded row: every left row emits at its own position", 2)
+    ctx.rule("a.no-early-result", "every return of join / full_join follows the index, probe and sweep loops: no fast path can "
+                                  "drop the None padding or the rows of a side", 2)
     ctx.rule("b.padding", "unmatched left row = its own values in all LEFT buffers + None once per RIGHT column", 2)
     ctx.rule("c.sweep", "full_join records the right row of every emitted pair; a sweep over range(len(other)) after the "
                         "probe loop emits exactly the unrecorded rows: None per LEFT column + the row's RIGHT values", 1)
@@ -43,6 +45,7 @@ def run(ctx) -> None:
             jr.buffers(ctx, jf, want_contexts=("matched", "unmatched-left") + (("sweep",) if v == "full_join" else ()))
             _ab(ctx, jf)
             jr.wrap(ctx, jf)
+            jr.no_early_result(ctx, jf, "a.no-early-result")
         ctx.section(f"join-structure:{v}", one)
         ctx.section(f"purity:{v}", jr.purity, ctx, v)
 
